@@ -372,6 +372,10 @@ func JSON(f func(req map[string]interface{}) interface{}) HookFunc {
 	}
 }
 
+// Lock / Unlock guard Calls for harnesses that read it while workers are running.
+func (h *HookRouter) Lock()   { h.mu.Lock() }
+func (h *HookRouter) Unlock() { h.mu.Unlock() }
+
 func (h *HookRouter) Reset() {
 	h.mu.Lock()
 	defer h.mu.Unlock()
